@@ -9,6 +9,7 @@ mod batch;
 mod check_import;
 mod check_locks;
 mod check_wire;
+mod cluster;
 mod wgen;
 mod harness;
 mod model;
